@@ -278,7 +278,7 @@ class Simplex:
         assert isinstance(ineq, InEquation)
         self.original.append(ineq)
         if isinstance(ineq, GreaterEq):
-            if len(ineq.jars) == 1: # a * x >= b
+            if len(ineq.jars) == 1 and ineq.jars[0].coeff != 0: # a * x >= b
                 jar = ineq.jars[0]
                 coeff, var_name, lower_bound = jar.coeff, jar.var, ineq.lower_bound
                 self.input_vars.add(var_name)
@@ -310,7 +310,9 @@ class Simplex:
                         self.nbasic_basic[var_name].add(s)        
             
                     if var_name not in self.mapping:
-                        self.mapping.update({var_name : 0, s : 0})
+                        self.mapping[var_name] = 0
+                    if s not in self.mapping:
+                        self.mapping[s] = coeff * self.mapping[var_name]
                     self.bound[s] = (-math.inf, math.inf)
                     if var_name not in self.bound:
                         self.bound[var_name] = (-math.inf, math.inf)
@@ -348,7 +350,7 @@ class Simplex:
                 self.bound[s] = (-math.inf, math.inf)
 
         elif isinstance(ineq, LessEq):
-            if len(ineq.jars) == 1: # a * x <= b
+            if len(ineq.jars) == 1 and ineq.jars[0].coeff != 0: # a * x <= b
                 jar = ineq.jars[0]
                 coeff, var_name, upper_bound = jar.coeff, jar.var, ineq.upper_bound
                 self.input_vars.add(var_name)
@@ -375,7 +377,9 @@ class Simplex:
                     self.basic.add(s)
                     self.non_basic.add(var_name)
                     if var_name not in self.mapping:
-                        self.mapping.update({var_name : 0, s : 0})
+                        self.mapping[var_name] = 0
+                    if s not in self.mapping:
+                        self.mapping[s] = coeff * self.mapping[var_name]
                     self.bound[s] = (-math.inf, math.inf)
                     if var_name not in self.nbasic_basic:
                         self.nbasic_basic[var_name] = {s}
@@ -727,7 +731,7 @@ def branch_and_bound(tableau, pts1, pts2):
                 return node.simplex.mapping
                 
                 
-        except:
+        except (UNSATException, AssertLowerException, AssertUpperException):
             continue
     
     # print("No integer solution!")
@@ -943,7 +947,7 @@ class SimplexHOLWrapper:
         
         # Check the necessity to introduce new variables
         if not (len(ineq.jars) == 1 and ineq.jars[0].coeff == 1): # need to introduce a new variable
-            s = Var('$'+string.ascii_lowercase[self.simplex.index - 1]+'$', RealType)
+            s = Var(self.simplex.matrix[ineq.jars], RealType)
             s_eq_pt = ProofTerm.assume(Eq(s, lhs))
             self.eq_pts[s] = s_eq_pt
             self.intro_eq.add(s_eq_pt)
